@@ -1854,7 +1854,7 @@ func c17RandomMW(r *rand.Rand, kind string) c17MW {
 	case "content":
 		m.N = vk.Pick(r, []int64{1, 2, 10, 100, 1000})
 	case "lower", "upper":
-		m.N = vk.Pick(r, []int64{0, 1, 59, 600, 86400, 10 * c17Year})
+		m.N = vk.Pick(r, []int64{0, 1, 59, 600, 86400, 10 * c17Year, 400 * c17Year, math.MaxInt64})
 	case "window":
 		m.From = vk.Pick(r, []int64{-10 * c17Year, -86400, -600, -1, 0, 300})
 		m.To = m.From + vk.Pick(r, []int64{1, 600, 86400, 86400, 5 * c17Year})
